@@ -58,8 +58,8 @@ THEOREMS = [
 ALPHABET = list("01acefx\"'[]{}():;.+-*%&|,=<>~!^#@_/\\ \n")
 assert len(ALPHABET) == 38, len(ALPHABET)
 
-K_CALLS = 40          # real profile events allowed per model step
-K0_CALLS = 400
+K_CALLS = 100         # real profile events allowed per model step
+K0_CALLS = 2000
 CAP_CALLS = 30_000_000
 EVAL_CAP = 150_000
 BATCH_ALARM = 600     # seconds per worker batch: only so that the check itself can never hang
@@ -340,6 +340,10 @@ def run_case(text, premod, want_eval):
     k = _W.klong
     try:
         if premod:
+            # the same text first in ANOTHER module: a parse cache keyed on the text alone shows up below
+            if k._module is not None:
+                k.prog(".module(0)")
+            guarded(lambda: k.prog(text), budget)
             k.prog(f".module(:{premod})")
         elif k._module is not None:
             k.prog(".module(0)")
